@@ -230,6 +230,17 @@ theorem accepted_path_minimal (g : CG) (hw : WF g) (s t : Nat) (p : List Nat)
     obtain ⟨⟨is, hp, hwalk⟩, hmin⟩ := FW.checkPath_minimal (weight g) g.upper s t (weight_bounded g hw) p c hc h
     exact ⟨is, c, hp, hwalk, hmin⟩
 
+/-- **ties**: two paths the driver accepts for one query have the same total weight — which of several minimum-weight paths
+    the external search reports is the only freedom left, and the statement "exactly one minimum-weight path" holds for each -/
+theorem accepted_paths_same_weight (g : CG) (hw : WF g) (s t : Nat) (p q : List Nat)
+    (hp : isMinPath g (CausalSpec.table g) s t p = true) (hq : isMinPath g (CausalSpec.table g) s t q = true) :
+    ∃ is js c, p = s :: is ++ [t] ∧ q = s :: js ++ [t] ∧ FW.Walk (weight g) s t is c ∧ FW.Walk (weight g) s t js c := by
+  obtain ⟨is, c, hp1, hp2, hpmin⟩ := accepted_path_minimal g hw s t p hp
+  obtain ⟨js, c', hq1, hq2, hqmin⟩ := accepted_path_minimal g hw s t q hq
+  have : c = c' := Nat.le_antisymm (hpmin js c' hq2) (hqmin is c hp2)
+  subst this
+  exact ⟨is, js, c, hp1, hq1, hp2, hq2⟩
+
 /-- an accepted answer of `get_shortest_path` is admissible -/
 theorem accepted_admissible (g : CG) (hw : WF g) (s t : Nat) (path : Option (List Nat))
     (h : pathAccepted g (CausalSpec.table g) s t path = true) : Admissible g s t path := by
